@@ -60,6 +60,8 @@ type CaseFile struct {
 	Shape string          `json:"shape"`
 	Case  json.RawMessage `json:"case"`
 	Exp   json.RawMessage `json:"exp,omitempty"`
+	// C11: also run the history route (real install, then upgrades that carry / reuse / reset the values)
+	Hist bool `json:"hist,omitempty"`
 	// C14: also run the operations through pkg/cmd; CliFlag = the one extra flag tried alone on this case
 	Cli     bool   `json:"cli,omitempty"`
 	CliFlag string `json:"cliflag,omitempty"`
